@@ -24,6 +24,13 @@ objs=[(dot(grad(f),n)*n, np.array([[0.25],[0.75]]))]'''),
     corpus._c("c04_facet_points_hex", '''
 m=mesh("hexahedron"); V=space(m,"Q",1); f=Coefficient(V); n=FacetNormal(m)
 objs=[(f*n, np.array([[0.25,0.5],[0.75,0.125]]))]'''),
+    corpus._c("c04_rank1_facet_points_tri", '''
+m=mesh("triangle"); V=space(m,"P",2); v=TestFunction(V); f=Coefficient(V); x=SpatialCoordinate(m)
+objs=[(v, np.array([[0.125],[0.25],[0.625],[0.9375]])), (as_vector([f*v, x[0]*v.dx(1)]), np.array([[0.125],[0.75]]))]'''),
+    corpus._c("c04_rank1_facet_points_tet_hex", '''
+m=mesh("tetrahedron"); V=space(m,"P",2); v=TestFunction(V); f=Coefficient(V); n=FacetNormal(m)
+mh=mesh("hexahedron"); Vh=space(mh,"Q",1); vh=TestFunction(Vh); fh=Coefficient(Vh)
+objs=[(f*v + dot(grad(v),n), np.array([[0.125,0.25],[0.5,0.125],[0.0625,0.75]])), (fh*vh, np.array([[0.125,0.25],[0.75,0.375]]))]'''),
     corpus._c("c04_interval_p3", '''
 m=mesh("interval"); V=space(m,"P",3); f=Coefficient(V); u=TrialFunction(V)
 objs=[(f.dx(0)*f, np.array([[0.125],[0.5],[0.875]])), (u.dx(0), np.array([[0.25],[0.75]]))]'''),
